@@ -113,7 +113,7 @@ Proof.
   destruct (f_ymd_spec W) as [V _]. pose proof (f_year_range W Hr) as Hy.
   assert (C : lvl = 0 \/ lvl = 1 \/ lvl = 2 \/ lvl = 3) by lia.
   unfold set_from. fold W.
-  destruct C as [->|[->|[-> | ->]]]; cbn [Z.leb Z.compare]; cbv beta iota.
+  destruct C as [->|[->|[-> | ->]]]; cbn [Z.leb Z.compare Pos.compare Pos.compare_cont]; cbv beta iota.
   - lvl_case W (unit_lo 0 0 W).
   - lvl_case W (unit_lo 1 0 W).
   - lvl_case W (unit_lo 2 0 W).
@@ -128,9 +128,101 @@ Proof.
   destruct (f_ymd_spec W) as [V _]. pose proof (f_year_range W Hr) as Hy.
   assert (C : lvl = 0 \/ lvl = 1 \/ lvl = 2 \/ lvl = 3) by lia.
   unfold set_from. fold W.
-  destruct C as [->|[->|[-> | ->]]]; cbn [Z.leb Z.compare]; cbv beta iota.
+  destruct C as [->|[->|[-> | ->]]]; cbn [Z.leb Z.compare Pos.compare Pos.compare_cont]; cbv beta iota.
   - lvl_case W (unit_hi 0 0 W).
   - lvl_case W (unit_hi 1 0 W).
   - lvl_case W (unit_hi 2 0 W).
   - lvl_case W (unit_hi 3 0 W).
+Qed.
+
+(* representability of January 1st / December 31st of a year *)
+Lemma wall_jan1 Y : wall_of Y 1 1 0 0 0 0 = days_before_year Y * us_per_day.
+Proof. unfold wall_of. rewrite ymd2ord_jan1. lia. Qed.
+Lemma wall_dec31 Y : wall_of Y 12 31 23 59 59 999999 = days_before_year (Y + 1) * us_per_day - 1.
+Proof. unfold wall_of. rewrite ymd2ord_dec31, upd_val. lia. Qed.
+Lemma jan1_nonneg Y : 0 <= wall_of Y 1 1 0 0 0 0 <-> 1 <= Y.
+Proof. rewrite wall_jan1, upd_val. unfold days_before_year. lia. Qed.
+Lemma dec31_in_range Y : wall_of Y 12 31 23 59 59 999999 <= 315537897599999999 <-> Y <= 9999.
+Proof. rewrite wall_dec31, upd_val. unfold days_before_year. lia. Qed.
+
+Lemma time0_ok : time_okb 0 0 0 0 = true. Proof. reflexivity. Qed.
+Lemma time_end_ok : time_okb 23 59 59 999999 = true. Proof. reflexivity. Qed.
+
+Lemma unit_lo_ws_irrelevant u ws W : u <> 4 -> unit_lo u ws W = unit_lo u 0 W.
+Proof. intros H. unfold unit_lo. destruct u as [|p|p]; try reflexivity. do 3 (destruct p; try reflexivity). lia. Qed.
+Lemma unit_hi_ws_irrelevant u ws W : u <> 4 -> unit_hi u ws W = unit_hi u 0 W.
+Proof. intros H. unfold unit_hi. destruct u as [|p|p]; try reflexivity. do 3 (destruct p; try reflexivity). lia. Qed.
+
+Lemma dt_start_non_week ws u v : non_week u -> wall_in_range (v_W v) = true ->
+  boundary_ok v (unit_lo u ws (v_W v)) ->
+  dt_start_of ws u v = if 0 <=? unit_lo u ws (v_W v) then Ok (unit_lo u ws (v_W v), fold_out v) else Raise E_ValueError.
+Proof.
+  intros [Hu H4] Hr B. rewrite (unit_lo_ws_irrelevant u ws _ H4) in *. unfold valid_unit in Hu.
+  set (W := v_W v) in *. pose proof (f_year_range W Hr) as Hy. pose proof (proj1 (wall_in_range_iff W) Hr) as HW.
+  assert (C : u = 0 \/ u = 1 \/ u = 2 \/ u = 3 \/ u = 5 \/ u = 6 \/ u = 7 \/ u = 8) by lia.
+  destruct C as [->|[->|[->|[->|[->|[->|[->| ->]]]]]]]; cbn [dt_start_of].
+  - rewrite (set_from_start v 0 Hr ltac:(lia) B). fold W. replace (0 <=? unit_lo 0 0 W) with true by (unfold unit_lo; lia). reflexivity.
+  - rewrite (set_from_start v 1 Hr ltac:(lia) B). fold W. replace (0 <=? unit_lo 1 0 W) with true by (unfold unit_lo; lia). reflexivity.
+  - rewrite (set_from_start v 2 Hr ltac:(lia) B). fold W. replace (0 <=? unit_lo 2 0 W) with true by (unfold unit_lo; lia). reflexivity.
+  - unfold dt_start_of_day. rewrite (set_from_start v 3 Hr ltac:(lia) B). fold W.
+    replace (0 <=? unit_lo 3 0 W) with true by (unfold unit_lo; rewrite upd_val; lia). reflexivity.
+  - unfold py_dt_start_of_month, dt_year, dt_month. fold W.
+    rewrite (dt_set_ok v _ _ _ _ _ _ _ Hy (valid_month_first W) time0_ok B).
+    replace (0 <=? unit_lo 5 0 W) with true; [reflexivity|].
+    unfold unit_lo, wall_of, ymd2ord, days_before_month.
+    pose proof (dbm_nonneg (is_leap (f_year W)) (f_month W) (f_month_range W)).
+    assert (0 <= days_before_year (f_year W)) by (unfold days_before_year; lia). rewrite upd_val. lia.
+  - unfold py_dt_start_of_year, dt_year. fold W.
+    rewrite (dt_set_ok v _ _ _ _ _ _ _ Hy (valid_jan1 _) time0_ok B).
+    replace (0 <=? unit_lo 6 0 W) with true; [reflexivity|]. unfold unit_lo. pose proof (proj2 (jan1_nonneg (f_year W)) ltac:(lia)). lia.
+  - unfold py_dt_start_of_decade, dt_year, C_YEARS_PER_DECADE. fold W. cbv zeta.
+    change (unit_lo 7 0 W) with (wall_of (f_year W - f_year W mod 10) 1 1 0 0 0 0) in *.
+    pose proof (jan1_nonneg (f_year W - f_year W mod 10)) as J.
+    destruct (0 <=? wall_of (f_year W - f_year W mod 10) 1 1 0 0 0 0) eqn:E.
+    + apply dt_set_ok; [lia|apply valid_jan1|reflexivity|exact B].
+    + apply dt_set_year_low. lia.
+  - unfold py_dt_start_of_century, dt_year, C_YEARS_PER_CENTURY. fold W. cbv zeta.
+    change (unit_lo 8 0 W) with (wall_of (f_year W - 1 - (f_year W - 1) mod 100 + 1) 1 1 0 0 0 0) in *.
+    pose proof (jan1_nonneg (f_year W - 1 - (f_year W - 1) mod 100 + 1)) as J.
+    replace (0 <=? wall_of (f_year W - 1 - (f_year W - 1) mod 100 + 1) 1 1 0 0 0 0) with true by lia.
+    apply dt_set_ok; [lia|apply valid_jan1|reflexivity|exact B].
+Qed.
+
+Lemma dt_end_non_week we u v : non_week u -> wall_in_range (v_W v) = true ->
+  boundary_ok v (unit_hi u 0 (v_W v)) ->
+  dt_end_of we u v = if unit_hi u 0 (v_W v) <=? 315537897599999999 then Ok (unit_hi u 0 (v_W v), fold_out v) else Raise E_ValueError.
+Proof.
+  intros [Hu H4] Hr B. unfold valid_unit in Hu.
+  set (W := v_W v) in *. pose proof (f_year_range W Hr) as Hy. pose proof (proj1 (wall_in_range_iff W) Hr) as HW.
+  assert (C : u = 0 \/ u = 1 \/ u = 2 \/ u = 3 \/ u = 5 \/ u = 6 \/ u = 7 \/ u = 8) by lia.
+  destruct C as [->|[->|[->|[->|[->|[->|[->| ->]]]]]]]; cbn [dt_end_of].
+  - rewrite (set_from_end v 0 Hr ltac:(lia) B). fold W. replace (unit_hi 0 0 W <=? 315537897599999999) with true by (unfold unit_hi; lia). reflexivity.
+  - rewrite (set_from_end v 1 Hr ltac:(lia) B). fold W. replace (unit_hi 1 0 W <=? 315537897599999999) with true by (unfold unit_hi; lia). reflexivity.
+  - rewrite (set_from_end v 2 Hr ltac:(lia) B). fold W. replace (unit_hi 2 0 W <=? 315537897599999999) with true by (unfold unit_hi; lia). reflexivity.
+  - unfold dt_end_of_day. rewrite (set_from_end v 3 Hr ltac:(lia) B). fold W.
+    replace (unit_hi 3 0 W <=? 315537897599999999) with true by (unfold unit_hi; rewrite upd_val; lia). reflexivity.
+  - unfold py_dt_end_of_month, dt_year, dt_month, dt_days_in_month, dt_year, dt_month. fold W.
+    rewrite (dt_set_ok v _ _ _ _ _ _ _ Hy (valid_month_last W) time_end_ok B).
+    replace (unit_hi 5 0 W <=? 315537897599999999) with true; [reflexivity|].
+    assert (unit_hi 5 0 W <= unit_hi 6 0 W).
+    { pose proof (unit_hi_same 5 0 W ltac:(unfold valid_unit; lia)) as S.
+      assert (E6 : unit_id 6 0 (unit_hi 5 0 W) = unit_id 6 0 W).
+      { unfold unit_id in *. pose proof (f_month_range W). pose proof (f_month_range (unit_hi 5 0 W)). lia. }
+      apply (unit_range_iff 6 0 W _ ltac:(unfold valid_unit; lia)) in E6. lia. }
+    pose proof (proj2 (dec31_in_range (f_year W)) ltac:(lia)). unfold unit_hi at 2 in H. lia.
+  - unfold py_dt_end_of_year, dt_year. fold W.
+    rewrite (dt_set_ok v _ _ _ _ _ _ _ Hy (valid_dec31 _) time_end_ok B).
+    replace (unit_hi 6 0 W <=? 315537897599999999) with true; [reflexivity|]. unfold unit_hi. pose proof (proj2 (dec31_in_range (f_year W)) ltac:(lia)). lia.
+  - unfold py_dt_end_of_decade, dt_year, C_YEARS_PER_DECADE. fold W. cbv zeta.
+    replace (f_year W - f_year W mod 10 + 10 - 1) with (f_year W - f_year W mod 10 + 9) by lia.
+    change (unit_hi 7 0 W) with (wall_of (f_year W - f_year W mod 10 + 9) 12 31 23 59 59 999999) in *.
+    pose proof (dec31_in_range (f_year W - f_year W mod 10 + 9)) as J.
+    replace (wall_of (f_year W - f_year W mod 10 + 9) 12 31 23 59 59 999999 <=? 315537897599999999) with true by lia.
+    apply dt_set_ok; [lia|apply valid_dec31|reflexivity|exact B].
+  - unfold py_dt_end_of_century, dt_year, C_YEARS_PER_CENTURY. fold W. cbv zeta.
+    change (unit_hi 8 0 W) with (wall_of (f_year W - 1 - (f_year W - 1) mod 100 + 100) 12 31 23 59 59 999999) in *.
+    pose proof (dec31_in_range (f_year W - 1 - (f_year W - 1) mod 100 + 100)) as J.
+    destruct (wall_of (f_year W - 1 - (f_year W - 1) mod 100 + 100) 12 31 23 59 59 999999 <=? 315537897599999999) eqn:E.
+    + apply dt_set_ok; [lia|apply valid_dec31|reflexivity|exact B].
+    + apply dt_set_year_high. lia.
 Qed.
